@@ -14,6 +14,6 @@ if [ -x lib/gen_terms.sh ]; then lib/gen_terms.sh; fi
 (cd coq && coq_makefile -f _CoqProject -o Makefile >/dev/null && timeout 7000 make -j16 >/dev/null)
 # 4. extraction + OCaml driver
 (cd ocaml && coqc -noglob -Q ../coq/theories LC ../coq/theories/Extract/Extract.v >/dev/null && \
-  ocamlfind ocamlopt -O3 -w -a -package str lc_model.mli lc_model.ml extra.ml driver.ml -o driver)
+  ocamlfind ocamlopt -O3 -w -a -package str lc_model.mli lc_model.ml common.ml extra.ml driver.ml -o driver)
 rm -f .cache/driver.stamp
 echo setup-ok
